@@ -20,15 +20,22 @@ fn drive_importcrash() -> Vec<String> {
     fails
 }
 
-fn roundtrip(m: &Model) -> Result<Model<'static>, String> {
+fn roundtrip(m: &Model, loc: &'static str, lang: &'static str) -> Result<Model<'static>, String> {
     let c = save_xlsx_to_writer(m, Cursor::new(Vec::new())).map_err(|e| format!("export: {e}"))?;
     let bytes = c.into_inner();
-    let wb = load_from_xlsx_bytes(&bytes, "m", "en", "UTC").map_err(|e| format!("import: {e}"))?;
-    Model::from_workbook(wb, "en").map_err(|e| format!("model: {e}"))
+    let wb = load_from_xlsx_bytes(&bytes, "m", loc, "UTC").map_err(|e| format!("import: {e}"))?;
+    Model::from_workbook(wb, lang).map_err(|e| format!("model: {e}"))
 }
 
 // C24: export then import keeps contents, values, types, names, sheet properties, sizes and hidden flags of a workbook with awkward texts
 fn drive_roundtrip() -> Vec<String> {
+    let mut all = vec![];
+    for (loc, lang) in [("en", "en"), ("de", "es")] {
+        for f in drive_roundtrip_in(loc, lang) { all.push(format!("[{loc}/{lang}] {f}")); }
+    }
+    all
+}
+fn drive_roundtrip_in(loc: &'static str, lang: &'static str) -> Vec<String> {
     let mut fails = vec![];
     let texts = ["a&b", "<tag>", "\"q\"", "it's", " lead", "trail ", "two  spaces", "line\nbreak", "tab\there", "_x0041_", "_x000A_", "\u{1}ctl", "é€😀", "1", "TRUE", "#N/A", "=notformula", "",
                  "  ", "a\r\nb", "x_x", "_x", "\u{7f}", "\u{ffff}", "\u{fffe}x", "]]>", "&amp;"];
@@ -48,8 +55,9 @@ fn drive_roundtrip() -> Vec<String> {
     let _ = um.set_columns_width(0, 6, 7, 33.0); let _ = um.set_rows_height(0, 40, 41, 44.0); let _ = um.set_rows_hidden(0, 42, 43, true); let _ = um.set_columns_hidden(0, 9, 9, true);
     let _ = um.set_frozen_rows_count(0, 2); let _ = um.set_frozen_columns_count(0, 1);
     let _ = um.set_sheet_color(1, &ironcalc_base::types::Color::Rgb("#00FF00".to_string())); let _ = um.hide_sheet(2); let _ = um.set_show_grid_lines(1, false);
+    if loc != "en" { let _ = um.set_locale(loc); let _ = um.set_language(lang); }
     let m = um.get_model();
-    let m2 = match roundtrip(m) { Ok(x) => x, Err(e) => return vec![format!("round trip failed: {e}")] };
+    let m2 = match roundtrip(m, loc, lang) { Ok(x) => x, Err(e) => return vec![format!("round trip failed: {e}")] };
     let (p1, p2) = (m.get_worksheets_properties(), m2.get_worksheets_properties());
     if format!("{p1:?}") != format!("{p2:?}") { fails.push(format!("sheet properties {p1:?} -> {p2:?}")); }
     if format!("{:?}", m.get_defined_name_list()) != format!("{:?}", m2.get_defined_name_list()) { fails.push("defined names differ".to_string()); }
